@@ -183,6 +183,7 @@ func checkC04(c *Ctx) {
 	c04Reuse(c, src, r0)
 	c04Imports(c)
 	c04Extras(c, src)
+	c04Handover(c)
 	// listing helper + accessor, once per node type that occurs
 	pts := &ndjson{}
 	seenType := map[string]bool{}
@@ -607,5 +608,57 @@ func c04ExtrasOn(c *Ctx, name string, src []byte) {
 	})
 	if m2 != "" || perr != nil || buf.String() != plain {
 		c.Fail(Finding{Sig: "render-with-extras-differs", Input: "extras|" + name, What: fmt.Sprintf("%s with %d declarations replaced by clones prints differently with Restorer.Extras (%s %v): %s", name, n, m2, perr, diffAt([]byte(plain), buf.Bytes())), Replay: obj{"kind": "none"}})
+	}
+}
+
+// c04Handover: the decorations of a point are handed to the same point of another node by assignment
+// (the documented way of moving them), the point they came from is cleared and filled again. What was
+// handed over is still rendered at its new node, the new text at the old one, nothing twice.
+func c04Handover(c *Ctx) {
+	src := "package p\n\n// Old does things.\n// It is documented on three lines\n// so that the list has spare capacity.\nfunc Old() {} // old trail\n\nfunc New() {}\n\n// V is a variable.\nvar V = 1 // v trail\n\nvar W = 2\n"
+	refill := map[string]func(d *dst.Decorations){
+		"Append":  func(d *dst.Decorations) { d.Append("// Deprecated: use the other one.") },
+		"Prepend": func(d *dst.Decorations) { d.Prepend("// Deprecated: use the other one.") },
+		"Replace": func(d *dst.Decorations) { d.Replace("// Deprecated: use the other one.") },
+	}
+	for _, pair := range [][2]int{{0, 1}, {2, 3}} {
+		for _, point := range []string{"Start", "End"} {
+			for name, fill := range refill {
+				f, err := decorator.Parse(src)
+				if err != nil {
+					c.Infra("handover source does not parse: " + err.Error())
+					return
+				}
+				from, to := f.Decls[pair[0]].Decorations(), f.Decls[pair[1]].Decorations()
+				a, b := &from.Start, &to.Start
+				if point == "End" {
+					a, b = &from.End, &to.End
+				}
+				handed := append([]string{}, a.All()...)
+				*b = *a
+				a.Clear()
+				fill(a)
+				key := fmt.Sprintf("handover|decl %d -> %d|%s|%s", pair[0], pair[1], point, name)
+				c.Eval(key, true)
+				if strings.Join(b.All(), "\x00") != strings.Join(handed, "\x00") || len(a.All()) != 1 {
+					c.Fail(Finding{Sig: "handed-over-decorations-change", Input: key, What: fmt.Sprintf("after handing %q over, clearing the old point and %s: the new point holds %q, the old one %q", handed, name, b.All(), a.All()), Replay: obj{"kind": "none"}})
+					continue
+				}
+				out, perr := printFile(f)
+				if perr != "" {
+					c.Fail(Finding{Sig: "handover-print-fails", Input: key, What: perr, Replay: obj{"kind": "none"}})
+					continue
+				}
+				for _, want := range append(append([]string{}, handed...), "// Deprecated: use the other one.") {
+					if want == "\n" {
+						continue
+					}
+					if n := strings.Count(out, want); n != 1 {
+						c.Fail(Finding{Sig: "handed-over-decorations-change", Input: key, What: fmt.Sprintf("%q is printed %d times:\n%s", want, n, out), Replay: obj{"kind": "none"}})
+						break
+					}
+				}
+			}
+		}
 	}
 }
